@@ -6,7 +6,7 @@ pid, title = sys.argv[1], sys.argv[2]
 src = open('/verif/coq/Theorems.v').read()
 out = [f"(* {pid} — {title}", "   Statements only: each theorem restates a lemma of Theorems.v and is closed by [exact]. *)",
        "From stdpp Require Import gmap list.", "From Coq Require Import NArith.",
-       "From G Require Import Arith Monad Types Inv Raw RawProofs Map MapProofs IterProofs CloneProofs Cost EntryProofs EntryCost Ledger SetProofs Conserve Fill WorldProofs WorldLedger Theorems.",
+       "From G Require Import Arith Monad Types Inv Raw RawProofs Map MapProofs IterProofs CloneProofs Cost EntryProofs EntryCost Ledger SetProofs Conserve EntryLedger Fill WorldProofs WorldLedger Theorems.",
        "Local Open Scope N_scope.", ""]
 names = []
 for spec in sys.argv[3:]:
